@@ -364,3 +364,57 @@ mut("C13", "r3-insert-no-nil-check", "api/database.go",
     "\tif acc == nil {\n\t\tapi.send(opID, dbMsgTypeError, \"record does not support inserting values\", nil)\n\t\treturn\n\t}\n", "", "C13-R3|handleInsert", comment="reverts fix ed67906")
 mut("C13", "r3-matches-no-nil-check", "database/query/query.go",
     "\tacc := r.GetAccessor(r)\n\tif acc == nil {\n\t\treturn false\n\t}\n\treturn q.where.complies(acc)", "\tacc := r.GetAccessor(r)\n\treturn q.where.complies(acc)", "C13-R3|MatchesRecord")
+
+# ---- C10 -------------------------------------------------------------------
+mut("C10", "r1-unpack8-count-one", "formats/varint/varint.go",
+    "\treturn blob[0], 2, nil", "\treturn blob[0], 1, nil", "C10-R1|Unpack8", canary=True, comment="reverts fix 3f3cbb2")
+mut("C10", "r1-unpack8-no-len2", "formats/varint/varint.go",
+    "\tif len(blob) < 2 {\n\t\treturn 0, 0, ErrBufTooSmall\n\t}\n", "", "C10-R1|blob[1] guarded")
+mut("C10", "r1-unpack8-any-continuation", "formats/varint/varint.go",
+    "\tif blob[1] != 0x01 {", "\tif blob[1] > 0x01 {", "C10-R1|decision table")
+mut("C10", "r2-unpack16-limit", "formats/varint/varint.go",
+    "\tif n > 65535 {", "\tif n > 65536 {", "C10-R2|Unpack16")
+mut("C10", "r2-unpack32-limit-shift", "formats/varint/varint.go",
+    "\tif n > 4294967295 {", "\tif n > 1<<32 {", "C10-R2|Unpack32")
+mut("C10", "r2-unpack64-overflow-ignored", "formats/varint/varint.go",
+    "\tif r < 0 {\n\t\treturn 0, 0, errors.New(\"varint: encoded integer greater than 18446744073709551615 (uint64)\")\n\t}\n\treturn n, r, nil", "\tif r < 0 {\n\t\tr = -r\n\t}\n\treturn n, r, nil", "C10-R2|Unpack64")
+mut("C10", "r2-pack32-small-buffer", "formats/varint/varint.go",
+    "\tbuf := make([]byte, 5)", "\tbuf := make([]byte, 4)", "C10-R2|Pack32 / buffer size")
+mut("C10", "r2-pack8-threshold", "formats/varint/varint.go",
+    "func Pack8(n uint8) []byte {\n\tif n < 128 {", "func Pack8(n uint8) []byte {\n\tif n <= 128 {", "C10-R2|Pack8")
+mut("C10", "r3-size-boundary", "formats/varint/helpers.go",
+    "\tcase n < 1<<14: // < 16384", "\tcase n < 1<<13: // < 16384", "C10-R3|EncodedSize")
+mut("C10", "r3-size-leq", "formats/varint/helpers.go",
+    "\tcase n < 1<<35: // < 34359738368", "\tcase n <= 1<<35: // < 34359738368", "C10-R3|EncodedSize")
+mut("C10", "r4-signed-check", "formats/varint/helpers.go",
+    "\tif l > uint64(len(data)-n) {\n\t\treturn nil, 0, errors.New(\"varint: not enough data for given block length\")\n\t}\n\tlength := int(l)\n\ttotalLength := length + n", "\tlength := int(l)\n\ttotalLength := length + n\n\tif totalLength > len(data) {\n\t\treturn nil, 0, errors.New(\"varint: not enough data for given block length\")\n\t}", "C10-R4|bounded before conversion", comment="reverts fix 50ce3d2")
+mut("C10", "r4-forgets-prefix", "formats/varint/helpers.go",
+    "\tif l > uint64(len(data)-n) {", "\tif l > uint64(len(data)) {", "C10-R4|bounded before conversion")
+mut("C10", "r4-count-without-prefix", "formats/varint/helpers.go",
+    "\treturn data[n:totalLength], totalLength, nil", "\treturn data[n:totalLength], length, nil", "C10-R4|count is n+l")
+
+# ---- C08 -------------------------------------------------------------------
+mut("C08", "r1-offset-not-advanced-check", "database/record/wrapper.go",
+    "\tmetaSection, n, err := varint.GetNextBlock(data[offset:])\n\tif err != nil {\n\t\treturn nil, fmt.Errorf(\"could not get meta section: %w\", err)\n\t}\n\toffset += n", "\tmetaSection, n, err := varint.GetNextBlock(data[offset:])\n\toffset += n\n\tif err != nil {\n\t\treturn nil, fmt.Errorf(\"could not get meta section: %w\", err)\n\t}", "C08-R1|count", canary=True)
+mut("C08", "r1-fixed-offset", "database/record/wrapper.go",
+    "\t\tformat,\n\t\tdata[offset:],\n\t}, nil", "\t\tformat,\n\t\tdata[offset+1:],\n\t}, nil", "C08-R1|offset provenance")
+mut("C08", "r1-gencode-guard-small", "database/record/meta-gencode.go",
+    "\tif len(buf) < m.GenCodeSize() {", "\tif len(buf) < 33 {", "C08-R1|indexed reads")
+mut("C08", "r2-size-33", "database/record/meta-gencode.go",
+    "\ts += 34\n\treturn", "\ts += 33\n\treturn", "C08-R2|size equals bytes written")
+mut("C08", "r3-swap-flag-bytes", "database/record/meta-gencode.go",
+    "\t\tm.secret = buf[32] == 1\n\t}\n\t{\n\t\tm.cronjewel = buf[33] == 1", "\t\tm.secret = buf[33] == 1\n\t}\n\t{\n\t\tm.cronjewel = buf[32] == 1", "C08-R3|flag bytes")
+mut("C08", "r3-shift-typo", "database/record/meta-gencode.go",
+    "(int64(buf[5+16]) << 40)", "(int64(buf[5+16]) << 32)", "C08-R3|byte layout")
+mut("C08", "r3-isdeleted-nonzero", "database/record/meta.go",
+    "func (m *Meta) IsDeleted() bool {\n\treturn m.Deleted > 0", "func (m *Meta) IsDeleted() bool {\n\treturn m.Deleted != 0", "C08-R3|'no data for deleted' predicate")
+mut("C08", "r3-base-marshal-geq", "database/record/base.go",
+    "\tif b.Meta().Deleted > 0 {\n\t\treturn nil, nil\n\t}", "\tif b.Meta().Deleted >= 0 && b.Meta().Deleted != 0 || b.Meta().Deleted < -1 {\n\t\treturn nil, nil\n\t}", "C08-R3|'no data for deleted' predicate")
+mut("C08", "r3-wrapper-meta-json", "database/record/wrapper.go",
+    "\tmetaSection, err := dsd.Dump(w.meta, dsd.GenCode)", "\tmetaSection, err := dsd.Dump(w.meta, dsd.JSON)", "C08-R3|section sequence")
+mut("C08", "r3-version-2", "database/record/base.go",
+    "\tc := container.New([]byte{1})", "\tc := container.New([]byte{2})", "C08-R3|version byte")
+mut("C08", "r4-raw-format-byte", "database/record/wrapper.go",
+    "\tformatID := varint.Pack8(w.Format)\n\tdata := make([]byte, 0, len(formatID)+len(w.Data))\n\tdata = append(data, formatID...)\n\tdata = append(data, w.Data...)", "\tdata := make([]byte, len(w.Data)+1)\n\tdata[0] = w.Format\n\tcopy(data[1:], w.Data)", "C08-R4|format identifier encoding", comment="reverts fix c5a380d")
+mut("C08", "r5-block-forgets-prefix", "formats/varint/helpers.go",
+    "\tif l > uint64(len(data)-n) {", "\tif l > uint64(len(data)) {", "C08-R5|bounded before conversion")
